@@ -43,6 +43,20 @@ spec fn index_signal(ix: EntryIndex) -> usize {
     match ix { EntryIndex::Entry { entry_index, signal_index } => signal_index, EntryIndex::Default { signal_index } => signal_index }
 }
 
+/// the column bindings of a test: which header columns feed inputs / carry expectations
+ghost struct Cols { inp: Seq<EntryIndex>, exp: Seq<EntryIndex> }
+
+impl Cols {
+    /// column c is bound to some input-capable signal
+    spec fn col_is_input(&self, c: int) -> bool {
+        exists|k: int| 0 <= k < self.inp.len() && ((#[trigger] self.inp[k]) matches EntryIndex::Entry { entry_index, signal_index } && entry_index == c)
+    }
+    /// column c is bound to some output-capable or virtual signal's expectation
+    spec fn col_is_expected(&self, c: int) -> bool {
+        exists|k: int| 0 <= k < self.exp.len() && ((#[trigger] self.exp[k]) matches EntryIndex::Entry { entry_index, signal_index } && entry_index == c)
+    }
+}
+
 impl<'a> DataRowIteratorTestData<'a> {
     /// well-formed index lists for rows of `width` columns (established by with_signals, C11):
     /// indices in range, input indices point at input-capable signals of width <= 64, expected
@@ -60,10 +74,9 @@ impl<'a> DataRowIteratorTestData<'a> {
             }
     }
 
+    spec fn cols(&self) -> Cols { Cols { inp: self.input_indices@, exp: self.expected_indices@ } }
     /// column c is bound to some input-capable signal
-    spec fn col_is_input(&self, c: int) -> bool {
-        exists|k: int| 0 <= k < self.input_indices@.len() && ((#[trigger] self.input_indices@[k]) matches EntryIndex::Entry { entry_index, signal_index } && entry_index == c)
-    }
+    spec fn col_is_input(&self, c: int) -> bool { self.cols().col_is_input(c) }
 
     /// C06/C07: the input entry for the k-th input index, given the evaluated row and its changed flags
     spec fn input_entry_spec(&self, k: int, entries: Seq<DataEntry>, changed: Seq<bool>) -> InputEntry<'a> {
